@@ -25,12 +25,13 @@ protected:
 };
 
 inline void delete_objects(deletable_object*& list) {
+  // detach the list first: a deleter may itself retire objects, which are then pushed to `list`
   auto* cur = list;
+  list = nullptr;
   for (deletable_object* next = nullptr; cur != nullptr; cur = next) {
     next = cur->next;
     cur->delete_self();
   }
-  list = nullptr;
 }
 
 template <class Derived, class DeleterT, class Base>
